@@ -236,9 +236,16 @@ def real_tables(mgr=None, repo=None):
                 seen[id(r)] = e
                 bl.append(e)
         for e in plugins + bl:
-            e["url"] = docs_utils.get_url(e["id"])
+            try:
+                e["url"] = docs_utils.get_url(e["id"])
+            except Exception as ex:        # a registered check without a documentation URL: a fact about /repo (C18 judges it), not a translator failure
+                e["url"] = ""
+                e["url_error"] = "%s: %s" % (type(ex).__name__, ex)
             restore_names(mgr, snap)
-        base = docs_utils.get_url("no such id")
+        try:
+            base = docs_utils.get_url("no such id")
+        except Exception:
+            base = ""
     finally:
         restore_names(mgr, snap)
     eps = benv.entry_points_from_setup_cfg(repo)
